@@ -47,7 +47,7 @@ struct DWorld : World {
 			if (op.kind == OP_FINI && !r.chance(1, 4)) op.kind = OP_EMIT_ID;
 			op.a = r.below(12);                 // id selector (8 ids, 4 hashed names)
 			// handler behaviour of a record created by this op: b = return selector | set_id selector << 8 | reenter << 16 | reenter id << 20
-			op.b = r.below(8) | (r.below(4) << 8) | ((r.chance(1, 5) ? 1 + r.below(2) : 0) << 16) | (r.below(12) << 20);
+			op.b = r.below(8) | (r.below(4) << 8) | ((r.chance(1, 5) ? 1 + r.below(3) : 0) << 16) | (r.below(12) << 20);
 			op.c = r.below(9) + 9 * r.below(1 << 20);     // reserve width (c % 9) and variant bits of the other ops
 			if (op.kind == OP_RESERVE && r.chance(1, 40)) op.b |= 0x3000;      // burst through the whole one-byte id space
 			else if (op.kind == OP_RESERVE && r.chance(1, 8)) op.b |= 0x5000;  // reservation on the dispatcher's own table
@@ -63,7 +63,7 @@ struct DWorld : World {
 	uintptr_t model_def = 0;
 	std::vector<Rec *> calls;              // invocation log of the current op
 	Log *lg = 0; Stats *stp = 0;
-	bool lib_fallback = false;
+	bool lib_fallback = false, in_eol = false, eol_emitted = false, in_emit = false;
 
 	static uintptr_t sel_id(int64_t a) {
 		a %= 12; if (a < 8) return IDS[a];
@@ -87,13 +87,24 @@ struct DWorld : World {
 			if (r->eol > 1) pend("double-end-of-life", "registration #%d (id %lx) received %d end-of-life notifications", r->index, (unsigned long) r->id, r->eol);
 			if (!r->registered) pend("end-of-life-unregistered", "record #%d was never registered but received an end-of-life notification", r->index);
 			r->ended = true;
+			// (only when the notification comes straight from the op - clear, replace, teardown - and the event goes to a handler that does
+			// nothing special itself: deeper nesting is real but beyond what the model follows)
+			if (r->reenter == 3 && w.D && !w.in_eol && !w.in_emit && (!w.live.count(r->reenter_id) || w.live[r->reenter_id]->reenter == 0)) {
+				// the end-of-life callback uses the dispatcher: whatever it reaches must be a handler that has not been told it ended
+				w.in_eol = true; w.eol_emitted = true;
+				event e2; e2.id = r->reenter_id;
+				w.lg->ev("    end-of-life #%d emits id %lx", r->index, (unsigned long) e2.id);
+				{ Reenter s; mpt_dispatch_emit(w.D, &e2); }
+				w.stp->hit("probe:emit_from_end_of_life");
+				w.in_eol = false;
+			}
 			return 0;
 		}
 		++r->invoked;
 		w.lg->ev("    invoke #%d (id %lx) ev->id=%lx", r->index, (unsigned long) r->id, (unsigned long) ev->id);
 		if (r->ended) pend("invoked-after-end", "registration #%d (id %lx) invoked after its end-of-life notification", r->index, (unsigned long) r->id);
 		if (!r->registered) pend("invoked-unregistered", "record #%d was never registered but is invoked", r->index);
-		w.calls.push_back(r);
+		if (!w.in_eol) w.calls.push_back(r);      // (an event emitted by an end-of-life callback is not the one the op is about)
 		// re-enter the dispatcher from inside the callback
 		if (r->reenter == 1 && !w.live.count(r->reenter_id)) {
 			Rec *n = w.new_rec(r->reenter_id, 0, false);
@@ -134,10 +145,12 @@ struct DWorld : World {
 			command *c; { Sut s; c = mpt_command_get(D, id); }
 			if (c) fail("ghost-registration", "after %s: id %lx resolves to a handler although none is registered", after, (unsigned long) id);
 		}
+		if (eol_emitted) { model_def = D->_def; eol_emitted = false; }      // an end-of-life callback emitted an event of its own: its flags moved the default outside the model
 		if (D->_def != model_def) fail("default-id", "after %s: default event id is %lx, the returned flags imply %lx", after, (unsigned long) D->_def, (unsigned long) model_def);
 	}
 
 	void exec(const Plan &p, Log &log, Stats &st) override {
+		in_eol = eol_emitted = in_emit = false;
 		W = this; lg = &log; stp = &st;
 		for (Rec *r : recs) delete r;
 		recs.clear(); live.clear(); fallback = 0; model_def = 0; calls.clear();
@@ -172,8 +185,10 @@ struct DWorld : World {
 			int exp_ret_valid = expect != 0;
 			Rec snap; if (expect) snap = *expect;
 			int rc;
+			in_emit = true;
 			if (hashed) { Sut s; SUT_GUARD_ABORT(rc = mpt_dispatch_hash(D, ev)); }
 			else { Sut s; SUT_GUARD_ABORT(rc = mpt_dispatch_emit(D, ev)); }
+			in_emit = false;
 			check_pending();
 			log.ev("%s -> %d (handlers called: %zu)", what, rc, calls.size());
 			if (!has_target_id) {
@@ -223,7 +238,9 @@ struct DWorld : World {
 			case OP_REPLACE: {
 				Rec *r = new_rec(id, op.b, false);
 				Rec *old = live.count(id) ? live[id] : 0;
+				r->registered = true;      // the new handler is in place while the old one is told of its end (and may use the dispatcher)
 				int rc; { Sut s(failn); rc = mpt_command_set(D, id, (int (*)(void *, void *)) handler, r); fired = g.fired; }
+				if (rc < 0) r->registered = false;
 				log.ev("REPLACE id %lx rec #%d%s -> %d", (unsigned long) id, r->index, fired ? " allocfail" : "", rc);
 				if (rc < 0) { if (!fired) fail("refused-valid", "command_set for id %lx refused (%d) without allocation fault", (unsigned long) id, rc); }
 				else { r->registered = true; live[id] = r; if (old) expect_eol(old, "replace"); outcome = old ? 2 : 1; }
